@@ -163,22 +163,35 @@ func resolveAnchors(p *Prog) (*Anchors, error) {
 		}
 		info := p.Pkgs[pkgExec].TypesInfo
 		var found *types.Var
-		ast.Inspect(fd, func(n ast.Node) bool {
-			as, ok := n.(*ast.AssignStmt)
-			if !ok {
-				return true
-			}
-			for _, l := range as.Lhs {
-				if se, ok := l.(*ast.SelectorExpr); ok {
-					if sel := info.Selections[se]; sel != nil && sel.Kind() == types.FieldVal {
-						if v, ok := sel.Obj().(*types.Var); ok && isFieldOf(v, st) {
-							found = v
+		// the assignment may sit in a helper the constructor returns the result
+		// of (`func WithSilent() Option { return setVerbose(false) }`)
+		var look func(fd *ast.FuncDecl, depth int)
+		look = func(fd *ast.FuncDecl, depth int) {
+			ast.Inspect(fd, func(n ast.Node) bool {
+				switch x := n.(type) {
+				case *ast.AssignStmt:
+					for _, l := range x.Lhs {
+						if se, ok := l.(*ast.SelectorExpr); ok {
+							if sel := info.Selections[se]; sel != nil && sel.Kind() == types.FieldVal {
+								if v, ok := sel.Obj().(*types.Var); ok && isFieldOf(v, st) {
+									found = v
+								}
+							}
+						}
+					}
+				case *ast.CallExpr:
+					if id, ok := x.Fun.(*ast.Ident); ok && depth < 2 && found == nil {
+						if callee, ok := info.Uses[id].(*types.Func); ok && callee.Pkg() != nil && callee.Pkg().Path() == pkgExec {
+							if cd := p.funcDecl(callee); cd != nil && cd != fd {
+								look(cd, depth+1)
+							}
 						}
 					}
 				}
-			}
-			return true
-		})
+				return true
+			})
+		}
+		look(fd, 0)
 		if found == nil {
 			return nil, fmt.Errorf("anchor unresolved: Executor field set by %s", o.fn.Name())
 		}
